@@ -32,4 +32,45 @@ PROPS = {
         "level_note": "trusted: the ixmc scheduler and its granularity (switches only at hooked operations), the strengthening "
                       "view model for stale reads, the linearizability checker; bounded: <=3 threads, <=4+4 operations, capacity <=3, PB<=2 quick / <=4 thorough",
     },
+    "C09": {
+        "level": "model_checking",
+        "technique": "stateless model checking of the real index sets / pool allocators under a controlled scheduler (DFS over schedules within preemption and staleness bounds), linearizability + exclusivity oracles",
+        "legs": [{"ws": "mc", "bin": "h_idx"}],
+        "rule": "one case = (subject: UniqueIndexSet | RobustUniqueIndexSet | bb-memory PoolAllocator | cal shm PoolAllocator, capacity, per-thread "
+                "acquire/release/lock/recover program); within a case every schedule with <= PB preemptions and <= SB stale reads is executed on the "
+                "real code; outcomes = per-thread result sequences (distinct outcomes counted per case)",
+        "assumptions": IXMC_ASSUME,
+        "design_ref": "DESIGN.md §3.1, §4 C09",
+        "level_text": "Every schedule of 2-3 threads running short acquire/release/lock-if-last/recover programs (ABA shapes on the free-list head "
+                      "included) on capacities 1..4 is executed on the real code up to the stated bounds; exclusivity, range, conservation are "
+                      "checked directly and the call/return history is checked for linearizability against a set-of-free-indices specification.",
+        "level_note": "trusted: ixmc scheduler granularity, the view model for stale reads, the linearizability checker; bounded: <=3 threads + main, <=3 ops per thread, capacity <=4, PB<=2 quick / <=4 thorough, SB<=1 quick / <=2 thorough",
+    },
+    "C10": {
+        "level": "model_checking",
+        "technique": "stateless model checking of the real mpmc::Container (registry) under a controlled scheduler, snapshot oracle with real-time clauses",
+        "legs": [{"ws": "mc", "bin": "h_container"}],
+        "rule": "one case = (capacity, prefill, writer programs of add/remove/recover, number of reader refreshes); every schedule within the bounds "
+                "is executed on the real code; outcome = what every refresh returned and yielded",
+        "assumptions": IXMC_ASSUME + ["the container's own payload copy (a memcpy) is one indivisible step; tears inside it are out of reach at this granularity"],
+        "design_ref": "DESIGN.md §3.1, §4 C10",
+        "level_text": "All schedules of 1-2 writers (add/remove/recover with slot reuse) against a refreshing reader on capacities 1..3 are executed "
+                      "on the real Container up to the stated bounds; every refresh is checked for: only really-added intact entries, no entry whose "
+                      "removal completed before the refresh began, every completed add present, exact set and 'nothing changed' at quiescence.",
+        "level_note": "trusted: ixmc scheduler granularity, view model; bounded: <=2 writers + reader, capacity <=3, PB<=2 quick / <=3..5 thorough. "
+                      "Stale-read stages are restricted to scenarios without cross-thread slot hand-over (see DESIGN.md §6 O1).",
+    },
+    "C12": {
+        "level": "model_checking",
+        "technique": "stateless model checking of the real UnrestrictedAtomic (blackboard value cell) under a controlled scheduler with split user-side writes",
+        "legs": [{"ws": "mc", "bin": "h_blackboard"}],
+        "rule": "one case = (value type of 1..9 words, number and style of writer updates (store / two-step loan with the value written in two halves), "
+                "readers x loads); every schedule within the bounds is executed on the real code; outcome = version sequence each reader saw",
+        "assumptions": IXMC_ASSUME + ["a reader's copy is separated from its counter load by the scheduling point after every atomic load; the writer's two-step update writes its value in two halves with an explicit scheduling point in between"],
+        "design_ref": "DESIGN.md §3.1, §4 C12",
+        "level_text": "All schedules of one writer (2-4 updates, copy and loan style) against 1-2 readers are executed on the real UnrestrictedAtomic up "
+                      "to the stated bounds: every value read is one written value in one piece, versions never go backwards per reader, and a second "
+                      "producer is refused while the first lives. Port level (Writer/Reader objects, one writer per service) is covered sequentially by C17/C08 harnesses, not here.",
+        "level_note": "trusted: ixmc scheduler granularity, view model; bounded: 1 writer, <=2 readers, <=4 updates, value sizes 1 byte..9 words, PB<=3 quick / <=5 thorough",
+    },
 }
